@@ -1,0 +1,205 @@
+//go:build verif
+
+package parser2
+
+import (
+	"fmt"
+	"sort"
+	"strings"
+)
+
+// Verification hooks for the parser (add-only, compiled only with -tags verif).
+// They expose the token stream exactly as Parser.Parse configures the tokenizer, the parser's
+// operator tables, and a dump of the AST as a term of the Coq type P2.Syn.Ast.ast.
+
+// VerifPTok is one token as the parser receives it.
+type VerifPTok struct {
+	Typ   int
+	Image string
+	Line  int
+}
+
+// VerifParseTokens returns the tokens Parse would receive for src. The operator detector and the
+// unary positions are initialised by the real code in Parse (called once on the empty input).
+func (p *Parser[V]) VerifParseTokens(src string) []VerifPTok {
+	if p.operatorDetect == nil {
+		func() {
+			defer func() { recover() }()
+			p.Parse("", nil)
+		}()
+	}
+	tokenizer :=
+		NewTokenizer(src, p.number, p.identifier, p.operatorDetect).
+			SetTextOperators(p.textOperators).
+			SetKeyWords(p.keyWords).
+			SetComments(p.allowComments).
+			SetComfort(p.comfort).
+			Start()
+	var toks []VerifPTok
+	for t := range tokenizer.tok {
+		toks = append(toks, VerifPTok{Typ: int(t.typ), Image: t.image, Line: int(t.Line)})
+	}
+	return toks
+}
+
+// VerifParseConfig returns the binary operators in priority order, the prefix operators (sorted),
+// the keywords and the text aliases.
+func (p *Parser[V]) VerifParseConfig() (ops []string, unary []string, keyWords []string, textOps map[string]string) {
+	ops = append(ops, p.operators...)
+	for u := range p.unary {
+		unary = append(unary, u)
+	}
+	sort.Strings(unary)
+	keyWords = append(keyWords, p.keyWords...)
+	textOps = map[string]string{}
+	for k, v := range p.textOperators {
+		textOps[k] = v
+	}
+	return
+}
+
+func verifCoqStr(s string) string {
+	var b strings.Builder
+	b.WriteString("[")
+	for i, r := range []rune(s) {
+		if i > 0 {
+			b.WriteString(";")
+		}
+		fmt.Fprintf(&b, "%d", r)
+	}
+	b.WriteString("]")
+	return b.String()
+}
+
+func verifCoqStrs(l []string) string {
+	items := make([]string, len(l))
+	for i, s := range l {
+		items[i] = verifCoqStr(s)
+	}
+	return "[" + strings.Join(items, ";") + "]"
+}
+
+// VerifParseDump writes the AST as a Coq term of type ast (lines are omitted);
+// constStr describes a constant of type V as a string.
+func VerifParseDump[V any](a AST, constStr func(V) string) string {
+	var b strings.Builder
+	verifDump(&b, a, constStr)
+	return b.String()
+}
+
+func verifDumpList[V any](b *strings.Builder, l []AST, constStr func(V) string) {
+	b.WriteString("[")
+	for i, e := range l {
+		if i > 0 {
+			b.WriteString(";")
+		}
+		verifDump(b, e, constStr)
+	}
+	b.WriteString("]")
+}
+
+func verifDump[V any](b *strings.Builder, a AST, constStr func(V) string) {
+	switch n := a.(type) {
+	case *Let:
+		b.WriteString("(ALet " + verifCoqStr(n.Name) + " ")
+		verifDump(b, n.Value, constStr)
+		b.WriteString(" ")
+		verifDump(b, n.Inner, constStr)
+		b.WriteString(")")
+	case *If:
+		b.WriteString("(AIf ")
+		verifDump(b, n.Cond, constStr)
+		b.WriteString(" ")
+		verifDump(b, n.Then, constStr)
+		b.WriteString(" ")
+		verifDump(b, n.Else, constStr)
+		b.WriteString(")")
+	case *TryCatch:
+		b.WriteString("(ATry ")
+		verifDump(b, n.Try, constStr)
+		b.WriteString(" ")
+		verifDump(b, n.Catch, constStr)
+		b.WriteString(")")
+	case *Switch[V]:
+		b.WriteString("(ASwitch ")
+		verifDump(b, n.SwitchValue, constStr)
+		b.WriteString(" [")
+		for i, c := range n.Cases {
+			if i > 0 {
+				b.WriteString(";")
+			}
+			b.WriteString("(")
+			verifDump(b, c.CaseConst, constStr)
+			b.WriteString(",")
+			verifDump(b, c.Value, constStr)
+			b.WriteString(")")
+		}
+		b.WriteString("] ")
+		verifDump(b, n.Default, constStr)
+		b.WriteString(")")
+	case *Operate:
+		fmt.Fprintf(b, "(AOp %s %d ", verifCoqStr(n.Operator), n.Priority)
+		verifDump(b, n.A, constStr)
+		b.WriteString(" ")
+		verifDump(b, n.B, constStr)
+		b.WriteString(")")
+	case *Unary:
+		b.WriteString("(AUn " + verifCoqStr(n.Operator) + " ")
+		verifDump(b, n.Value, constStr)
+		b.WriteString(")")
+	case *MapAccess:
+		b.WriteString("(AAccess " + verifCoqStr(n.Key) + " ")
+		verifDump(b, n.MapValue, constStr)
+		b.WriteString(")")
+	case *MethodCall:
+		b.WriteString("(AMethod " + verifCoqStr(n.Name) + " ")
+		verifDumpList(b, n.Args, constStr)
+		b.WriteString(" ")
+		verifDump(b, n.Value, constStr)
+		b.WriteString(")")
+	case *ListAccess:
+		b.WriteString("(AIndex ")
+		verifDump(b, n.Index, constStr)
+		b.WriteString(" ")
+		verifDump(b, n.List, constStr)
+		b.WriteString(")")
+	case *ClosureLiteral:
+		b.WriteString("(AClosure " + verifCoqStrs(n.Names) + " ")
+		verifDump(b, n.Func, constStr)
+		rec := "false"
+		if n.Recursive {
+			rec = "true"
+		}
+		b.WriteString(" " + verifCoqStrs(n.OuterIdents) + " " + rec + " " + verifCoqStr(n.ThisName) + ")")
+	case *MapLiteral:
+		b.WriteString("(AMapLit [")
+		first := true
+		n.Map.Iter(func(key string, value AST) bool {
+			if !first {
+				b.WriteString(";")
+			}
+			first = false
+			b.WriteString("(" + verifCoqStr(key) + ",")
+			verifDump(b, value, constStr)
+			b.WriteString(")")
+			return true
+		})
+		b.WriteString("])")
+	case *ListLiteral:
+		b.WriteString("(AListLit ")
+		verifDumpList(b, n.List, constStr)
+		b.WriteString(")")
+	case *Ident:
+		b.WriteString("(AIdent " + verifCoqStr(n.Name) + ")")
+	case *Const[V]:
+		b.WriteString("(AConst " + verifCoqStr(constStr(n.Value)) + ")")
+	case *FunctionCall:
+		b.WriteString("(ACall ")
+		verifDump(b, n.Func, constStr)
+		b.WriteString(" ")
+		verifDumpList(b, n.Args, constStr)
+		b.WriteString(")")
+	default:
+		panic(fmt.Sprintf("verif dump: unknown AST node %T", a))
+	}
+}
